@@ -372,8 +372,8 @@ Proof.
 Qed.
 
 (** * Chain resolution through the decoded AKAI table: bounded (small-scope) theorem.
-    The unbounded statement is [akai_decode_chain_statement]; it is not proved yet (see
-    DESIGN.md).  What IS proved here, by complete enumeration inside Coq, is the same
+    The unbounded theorem (with the table-size bound it needs) is proved in
+    AkaiChainProofs.v.  What is proved here, by complete enumeration inside Coq, is the same
     statement for every table of at most 4 words over the alphabet
     {free, EOF, reserved-std, reserved-v2, every in-range link, one out-of-range link}. *)
 Fixpoint raw_chain (fuel : nat) (block : list Z) (seen : list Z) (cur : Z) : option (list Z) :=
@@ -418,7 +418,9 @@ Definition all_ok (n : nat) : bool :=
 Lemma akai_chain_small_scope_all : all_ok 1 && all_ok 2 && all_ok 3 && all_ok 4 = true.
 Proof. vm_compute. reflexivity. Qed.
 
-(** The unbounded statement (kept visible; NOT proved in this development). *)
+(** The unbounded statement as first written, without a bound on the table size: it is FALSE
+    for tables of more than 0xC000 words and proved for all others (AkaiChainProofs.v:
+    [akai_decode_chain_lemma], [akai_decode_chain_statement_refuted_lemma]). *)
 Definition akai_decode_chain_statement : Prop :=
   forall block s c,
     Forall (fun w => 0 <= w < 65536) block ->
